@@ -113,7 +113,11 @@ impl FoldFSM {
             self.ctor_queue.start_back_traverse();
         } else {
             ctor.after_end(data_keeper);
-            self.ctor_queue.traverse_back();
+            if !self.ctor_queue.traverse_back() {
+                // a script could run the next of a fold more than once per iteration,
+                // e.g. from inside an inner fold
+                return Err(StateFSMError::FoldBackTraversalExhausted);
+            }
 
             let LoreCtorDesc {
                 ctor,
